@@ -34,6 +34,9 @@ Extract/Extract.vos Extract/Extract.vok Extract/Extract.required_vos: Extract/Ex
 Spec/Iana.vo Spec/Iana.glob Spec/Iana.v.beautified Spec/Iana.required_vo: Spec/Iana.v 
 Spec/Iana.vio: Spec/Iana.v 
 Spec/Iana.vos Spec/Iana.vok Spec/Iana.required_vos: Spec/Iana.v 
+Spec/Names.vo Spec/Names.glob Spec/Names.v.beautified Spec/Names.required_vo: Spec/Names.v Base/Bytes.vo Model/Fmt.vo
+Spec/Names.vio: Spec/Names.v Base/Bytes.vio Model/Fmt.vio
+Spec/Names.vos Spec/Names.vok Spec/Names.required_vos: Spec/Names.v Base/Bytes.vos Model/Fmt.vos
 Proofs/Enum.vo Proofs/Enum.glob Proofs/Enum.v.beautified Proofs/Enum.required_vo: Proofs/Enum.v Model/Dec.vo
 Proofs/Enum.vio: Proofs/Enum.v Model/Dec.vio
 Proofs/Enum.vos Proofs/Enum.vok Proofs/Enum.required_vos: Proofs/Enum.v Model/Dec.vos
